@@ -101,6 +101,32 @@ func stringEnumerate(obj *object, all bool, each func(string) bool) {
 	objectEnumerate(obj, all, each)
 }
 
+// stringDefineOwnProperty is [[DefineOwnProperty]] (8.12.9) for String objects:
+// the index properties are computed by stringGetOwnProperty, not stored, so the
+// generic implementation would not see them. They are neither writable nor
+// configurable, so only a descriptor that changes nothing is accepted.
+func stringDefineOwnProperty(obj *object, name string, descriptor property, throw bool) bool {
+	if _, stored := obj.readProperty(name); !stored {
+		if prop := stringGetOwnProperty(obj, name); prop != nil {
+			value, isValue := descriptor.value.(Value)
+			switch {
+			case descriptor.isEmpty():
+			case descriptor.configurable(),
+				descriptor.enumerateSet() && descriptor.enumerable() != prop.enumerable(),
+				descriptor.isAccessorDescriptor(),
+				descriptor.writable(),
+				isValue && !value.isEmpty() && !sameValue(prop.value.(Value), value):
+				if throw {
+					panic(obj.runtime.panicTypeError("Object.DefineOwnProperty: property not configurable or writeable and descriptor not the same"))
+				}
+				return false
+			}
+			return true
+		}
+	}
+	return objectDefineOwnProperty(obj, name, descriptor, throw)
+}
+
 func stringGetOwnProperty(obj *object, name string) *property {
 	if prop := objectGetOwnProperty(obj, name); prop != nil {
 		return prop
